@@ -21,6 +21,9 @@ type c17Case struct {
 	Caps      []string `json:"caps"`
 	StallStep string   `json:"stall_step"` // step id at which the server goes silent ("content" = stops reading DATA content)
 	Call      string   `json:"call"`       // dial | dialandsend | send | reset
+	// CtxMS > 0: the dialling calls get a caller context whose own deadline is that far away (much
+	// later than the configured timeout, which must still bound the call).
+	CtxMS int `json:"ctx_ms,omitempty"`
 }
 
 type c17Outcome struct {
@@ -81,12 +84,18 @@ func c17Exec(c *c17Case) c17Outcome {
 			return out
 		}
 	}
+	ctx := context.Background()
+	if c.CtxMS > 0 {
+		var cancel context.CancelFunc
+		ctx, cancel = context.WithTimeout(ctx, time.Duration(c.CtxMS)*time.Millisecond)
+		defer cancel()
+	}
 	r := watchdog(bound, d, func() error {
 		switch c.Call {
 		case "dial":
-			return cl.DialWithContext(context.Background())
+			return cl.DialWithContext(ctx)
 		case "dialandsend":
-			return cl.DialAndSendWithContext(context.Background(), mk())
+			return cl.DialAndSendWithContext(ctx, mk())
 		case "send":
 			return cl.Send(mk())
 		default:
@@ -120,7 +129,7 @@ func c17Run(c c17Case) []*core.Violation {
 		rec.Class("stall-point-not-reached")
 		return nil
 	}
-	fp := core.Join(c.Call, c.StallStep, c.Cfg.TLS, c.Cfg.Auth, c.Cfg.TimeoutMS)
+	fp := core.Join(c.Call, c.StallStep, c.Cfg.TLS, c.Cfg.Auth, c.Cfg.TimeoutMS, c.Cfg.NoNoop, c.Cfg.Fallback, c.CtxMS)
 	rec.NonTrivial(fp)
 	rec.Class("call:" + c.Call)
 	rec.Sample(c.Call+"/"+c.StallStep, map[string]interface{}{"call": c.Call, "stall_step": c.StallStep, "tls": c.Cfg.TLS, "auth": c.Cfg.Auth, "timeout_ms": c.Cfg.TimeoutMS, "returned_after_ms": out.elapsed.Milliseconds(), "error": fmt.Sprint(out.err)})
@@ -190,6 +199,27 @@ func c17Configs() []c17Case {
 			}
 		}
 	}
+	// WithoutNoop: the connection check sends no NOOP, the deadline must be armed all the same
+	for _, st := range []string{"mail#1", "rcpt#1.1", "data#1", "content", "eod#1", "rset#1"} {
+		cfg := smtpCfg{TLS: "none", NoNoop: true}
+		out = append(out, c17Case{Cfg: cfg, Caps: []string{"8BITMIME"}, StallStep: st, Call: "send"})
+		out = append(out, c17Case{Cfg: cfg, Caps: []string{"8BITMIME"}, StallStep: st, Call: "dialandsend"})
+	}
+	out = append(out, c17Case{Cfg: smtpCfg{TLS: "none", NoNoop: true}, Caps: []string{"8BITMIME"}, StallStep: "rset#1", Call: "reset"})
+	// a caller context with a deadline of its own that is far away (60 s): the configured timeout still applies
+	for _, tlsp := range []string{"none", "mandatory"} {
+		caps := []string{"8BITMIME", "AUTH PLAIN LOGIN"}
+		steps := []string{"greet", "ehlo#1"}
+		if tlsp != "none" {
+			caps = append([]string{"STARTTLS"}, caps...)
+			steps = append(steps, "starttls", "tlshandshake", "ehlo#2")
+		}
+		for _, st := range append(steps, "auth#1", "authstep#1") {
+			cfg := smtpCfg{TLS: tlsp, Auth: "LOGIN-NOENC", User: "user", Pass: "secretpw"}
+			out = append(out, c17Case{Cfg: cfg, Caps: caps, StallStep: st, Call: "dial", CtxMS: 60000})
+			out = append(out, c17Case{Cfg: cfg, Caps: caps, StallStep: st, Call: "dialandsend", CtxMS: 60000})
+		}
+	}
 	// the fallback-port path: the primary dial is refused, the stall happens on the fallback connection
 	for _, st := range []string{"greet", "ehlo#1", "starttls", "tlshandshake", "ehlo#2", "noop#1", "mail#1", "data#1", "content", "eod#1", "quit"} {
 		cfg := smtpCfg{TLS: "opportunistic", Fallback: true}
@@ -206,7 +236,7 @@ func c17Configs() []c17Case {
 func c17Describe() {
 	rec := core.Rec("C17")
 	rec.Rule = "enumerated stall points: the reference server goes silent (connection held open) at {greeting, EHLO reply, STARTTLS reply, during the TLS handshake, second EHLO, the AUTH command, the first and second challenge of the exchange, NOOP, MAIL, first and second RCPT, DATA, inside the message content (server stops reading; bounded in-memory buffer so the writer blocks), end-of-data reply, the NOOP/RSET after delivery, QUIT} " +
-		"x TLS policy {none, mandatory} x auth {none, PLAIN, LOGIN, CRAM-MD5, SCRAM-SHA-256} x call {DialWithContext, DialAndSend, Send, Reset}, plus the same stall points on a connection obtained through the fallback port (primary dial refused), x configured timeout (100 ms in quick; 100/200/400 ms in thorough). " +
+		"x TLS policy {none, mandatory} x auth {none, PLAIN, LOGIN, CRAM-MD5, SCRAM-SHA-256} x call {DialWithContext, DialAndSend, Send, Reset}, plus the same stall points on a connection obtained through the fallback port (primary dial refused), with WithoutNoop, and with a caller context whose own deadline is 60 s away, x configured timeout (100 ms in quick; 100/200/400 ms in thorough). " +
 		"Oracle: the call returns a non-nil error within max(20 x timeout, 15 s); a miss is re-run twice in isolation and only reported if it repeats. Non-trivial: every case whose stall point is actually reached; distinct by (call, stall point, policy, auth, timeout)."
 	rec.Assumptions = []string{"real clocks: the bound is >= 20x the configured timeout and at least 15 s (closing a TLS connection to a peer that no longer reads may itself take 5 s in crypto/tls)", "in-memory transport through WithDialContextFunc (deadline support implemented by the harness connection)", "boundedness is shown only for the enumerated stall points"}
 }
